@@ -1043,6 +1043,8 @@ func checkDidDocumentValid(p *Prog, r *Report, kp func(string, string) string) {
 	} else {
 		r.OKTrivial(kp("LOOP", "DIDDocument.validVerificationRelationships#anchor"), "the relationship validator is a method of the document", p.FnPos(valid), "no method of that name: its body is not examined here (the relationship lists are still required to be validated, see #relationships)")
 	}
+	// the plural predicates behind the optional list fields quantify over every element
+	checkPluralPredicates(p, r, kp, didTypesPkg)
 	// the optional list fields: when present, contexts pass ValidateContexts; a controller list is empty or made of DIDs
 	{
 		FT := fa.AtInstrX(finalTrue)
